@@ -107,10 +107,11 @@ func decodeNBNSName(buf []byte) (n int, name string, err error) {
 	// we only care about the 16 bytes compressed name (ie. 32 bytes)
 	// ignore scope id (i.e. anything after 16 bytes)
 	buf = buf[1:] // 0 is len; name starts at 1
+	var raw [netbiosMaxNameLen]byte // octets, not runes: string(byte) would UTF-8 encode values >= 0x80
 	for i := 0; i < 32; i = i + 2 {
-		character := ((buf[i] - 'A') << 4) | (buf[i+1] - 'A')
-		name = name + string(character)
+		raw[i/2] = ((buf[i] - 'A') << 4) | (buf[i+1] - 'A')
 	}
+	name = string(raw[:])
 
 	return len(buf), strings.TrimRight(name, " "), nil
 }
